@@ -2,6 +2,7 @@ package props
 
 import (
 	"fmt"
+	"strings"
 	"testing"
 
 	"pgregory.net/rapid"
@@ -31,6 +32,9 @@ func init() {
 		}
 		if v1.Compare(v2) != 0 || v2.Compare(v1) != 0 {
 			return false, "versions do not compare equal (premise not met)"
+		}
+		if c.Eco == "pypi" && strings.Contains(c.Inputs[0], "===") {
+			return false, "excluded: pypi '===' compares the text by documentation"
 		}
 		if c.Eco == "alpm" && alpmHasPkgrel(c.Inputs[1]) != alpmHasPkgrel(c.Inputs[2]) {
 			return false, "excluded: alpm pair differing in pkgrel presence"
@@ -73,7 +77,13 @@ func TestC20(t *testing.T) {
 		e := e
 		rapid.Check(t, func(rt *rapid.T) {
 			base := gen.Version(rt, e.Name, "base")
-			ri, ok := gen.DrawAnyRange(rt, e, gen.Neighbor(rt, e, base, "rb"), "r")
+			// the range is written around a neighbour of the base or (half of the time) around the base itself, so that
+			// bounds and probes also coincide textually
+			rbase := gen.Neighbor(rt, e, base, "rb")
+			if gen.Chance(rt, "rbSame", 1, 2) {
+				rbase = base
+			}
+			ri, ok := gen.DrawAnyRange(rt, e, rbase, "r")
 			if !ok {
 				r.ev.Count("range_not_built", 1)
 				return
